@@ -115,6 +115,9 @@ def gen_plan(S, index, tier):
             h2 = f'X{nobj}'
             nobj += 1
             ev = {'act': kind, 'src': h, 'out': h2}
+            if kind == 'copy':
+                # the copies a client makes: the method, the standard library's deepcopy, a pickle round trip
+                ev['via'] = S.pick(['copy', 'copy', 'deepcopy', 'pickle'])
             models[h2] = m.clone()
             if kind == 'rebuild' and nobj < 4 and S.coin(0.6):
                 # two annotations built from ONE field dictionary that the caller keeps
@@ -700,7 +703,15 @@ def _exec_event(run, ev_i, ev):
         src = run.live.get(ev['src'])
         if src is None:
             return False
-        c = _lib(src.copy)
+        via = ev.get('via', 'copy')
+        if via == 'deepcopy':
+            c = _lib(copy.deepcopy, src)
+        elif via == 'pickle':
+            import pickle
+            c = _lib(lambda: pickle.loads(pickle.dumps(src)))
+        else:
+            c = _lib(src.copy)
+        out.probes['copies_via_' + via] += 1
         run.live[ev['out']] = c
         run.models[ev['out']] = run.models[ev['src']].clone()
         out.probes['copies'] += 1
